@@ -9,6 +9,7 @@
  R2 combination : nli[c] = sum_p P_c P_p^2 eta[c,p]; degree 3 in channel power; eta does not derive from power.
  R3 coefficients: alpha = loss_coef/(10 log10 e); gamma() returns params.gamma_scaling(f); beta2 from dispersion.
  R4 method gate : the analytic branch is selected by equality with 'gn_model_analytic' and unknown methods raise.
+ Rm memo          : every memoisation construct in the functions behind this property is keyed by everything it reads.
 """
 import ast
 from fractions import Fraction
@@ -268,4 +269,9 @@ def r5_sorted(ctx):
     init_permutation(ctx, 'R5.order-independence')
 
 
-RULES = [('R5.order-independence', r5_sorted), ('R1.closed-form', r1_closed_form), ('R2.combination', r2_combination), ('R3.coefficients', r3_coefficients)]
+
+from ..memo import rule_for as _memo_rule
+
+RULES_MEMO = ('Rm.memo', _memo_rule('C03', 'the NLI of another fibre configuration or spectrum would be applied'))
+
+RULES = [('R5.order-independence', r5_sorted), ('R1.closed-form', r1_closed_form), ('R2.combination', r2_combination), ('R3.coefficients', r3_coefficients), RULES_MEMO]
